@@ -151,6 +151,17 @@ template <int CAP> struct EveryCap {
 			if (bad) violation("reused-buffer-not-zero", rp, "capacity %d: a write stream opened on a used buffer starts with bits set past the cursor", CAP);
 			const int half = CAP / 2; for (int i = 0; i < half; ++i) { ws.template write<1>(1); m.write(1, 1); }
 			if (ws.cursor() != half || memcmp(buf.data(), m.bytes, (CAP + 7) / 8)) violation("reused-buffer-content", rp, "capacity %d: after %d one-bit fields on a reused buffer the content differs from a fresh one", CAP, half); }
+		// the same with a start cursor inside the buffer: every bit from the cursor on is zero before the first write, whatever the buffer held
+		for (int c = 1; c < CAP && c <= 17; ++c) for (int dirt = 0; dirt < 2; ++dirt) { typename S::Buf buf; memset(buf.data(), dirt ? 0xA5 : 0xFF, (CAP + 7) / 8); ++me().cases;
+			typename S::Wr ws{buf, static_cast<ffsm2::Long>(c)};
+			int badbit = -1; for (int b = c; b < CAP; ++b) if (buf.data()[b >> 3] & (1u << (b & 7))) { badbit = b; break; }
+			if (badbit >= 0) { violation("reused-buffer-not-zero-past-cursor", rp, "capacity %d: write stream opened at cursor %d on a used buffer: bit %d is set before anything was written", CAP, c, badbit); break; }
+			// one field written there reads back
+			const int w = (CAP - c) < 7 ? (CAP - c) : 7; uint32_t v = 0x2Au & ((1u << w) - 1u);
+			switch (w) { case 1: ws.template write<1>(static_cast<uint8_t>(v)); break; case 2: ws.template write<2>(static_cast<uint8_t>(v)); break; case 3: ws.template write<3>(static_cast<uint8_t>(v)); break; case 4: ws.template write<4>(static_cast<uint8_t>(v)); break; case 5: ws.template write<5>(static_cast<uint8_t>(v)); break; case 6: ws.template write<6>(static_cast<uint8_t>(v)); break; default: ws.template write<7>(static_cast<uint8_t>(v)); break; }
+			typename S::Rd rs{buf, static_cast<ffsm2::Long>(c)}; uint32_t g = 0;
+			switch (w) { case 1: g = rs.template read<1>(); break; case 2: g = rs.template read<2>(); break; case 3: g = rs.template read<3>(); break; case 4: g = rs.template read<4>(); break; case 5: g = rs.template read<5>(); break; case 6: g = rs.template read<6>(); break; default: g = rs.template read<7>(); break; }
+			if (g != v) { violation("reused-buffer-read-back", rp, "capacity %d: field of %d bits written at cursor %d on a reused buffer reads %u, written %u", CAP, w, c, g, v); break; } }
 		// the state-index encoding used by save(): bitWidth(N) bits suffice for every index below N
 		static_assert(CAP - 1 < (1 << ffsm2::bitWidth(CAP)) || ffsm2::bitWidth(CAP) >= 31, "bitWidth(N) too small");
 		EveryCap<CAP - 1>::run();
